@@ -222,6 +222,45 @@ def run_case(ctx, name, params):
                               "%s(dimension %d): found a point with value %r, better than the documented optimum %r in the "
                               "declared direction (%s)" % (fname, n, sign * bestv, opt, "maximize" if maximize else "minimize"),
                               {"function": fname, "dimension": n, "x": bestx, "value": sign * bestv, "documented": opt})
+        # (4) the same benchmark object evaluated by several threads at once (what max_processes>1 does), with statement-level
+        # yields inside benchmark code: every call must return the value of ITS point
+        if fname != "XinSheYang3" and not state["bad"]:
+            import threading
+            from .. import sched
+            tpts = [[lb + r.random() * (ub - lb) for lb, ub in box] for _ in range(24)]
+            if coords is not None and len(coords) == n:
+                tpts.append([float(c) for c in coords])
+            serial = [p.evaluate(Individual(list(q)))[0] for q in tpts]
+            got = [None] * len(tpts)
+
+            def work(k0):
+                for k in range(k0, len(tpts), 3):
+                    for _rep in range(2):
+                        got[k] = p.evaluate(Individual(list(tpts[k])))[0]
+            inj = sched.YieldInjector(params["seed"] + n, prob=0.4, modules=("artap.benchmark_functions", "artap.benchmark_robust"))
+            inj.start()
+            try:
+                ths = [threading.Thread(target=work, args=(k0,)) for k0 in range(3)]
+                for t in ths:
+                    t.start()
+                for t in ths:
+                    t.join()
+            finally:
+                inj.stop()
+            ctx.count("threaded_evaluations", 2 * len(tpts))
+            ctx.count("line_yields_inside_benchmarks", inj.yields)
+            for k, (a_, b_) in enumerate(zip(serial, got)):
+                if b_ is None or float(a_) != float(b_):
+                    ctx.violation("C15/%s/threaded_value" % fname, "%s.evaluate returned %r for a point whose value is %r when three "
+                                  "threads evaluate different points on the same object" % (fname, b_, a_),
+                                  {"function": fname, "dimension": n, "x": tpts[k]})
+                    break
+            # and the object must still be intact afterwards
+            if coords is not None and len(coords) == n and opt is not None and fname != "ModifiedEasom":
+                v = f(list(coords))
+                if v is not None and abs(v - opt) > TOL:
+                    ctx.violation("C15/%s/optimum_value_after_threads" % fname, "%s evaluates to %r at its documented optimum after "
+                                  "concurrent use" % (fname, v), {"function": fname, "dimension": n})
         ctx.sample({"function": fname, "dimension": n, "criteria": "maximize" if maximize else "minimize",
                     "documented_optimum": opt, "best_seen": None if best is None else best[0]}, fname, 1)
 
@@ -232,3 +271,4 @@ def requirements(ctx):
     ctx.require("evaluations_numpy", 1000)
     ctx.require("optimum_value_checks", 20)
     ctx.require("bound_searches", 20)
+    ctx.require("threaded_evaluations", 500)
